@@ -124,8 +124,16 @@ func Minimise(sc *Scenario, mon Monitors, key string, budget int) (*Scenario, in
 				try(c)
 			}
 		}
+		// C19 worlds hold variants of ONE request: shrinking the content of one variant
+		// alone would break the premise of the metamorphic relation (a dropped Via in the
+		// base is a different message, not a smaller witness). Only connections,
+		// deliveries and knobs are minimised for them.
+		contentOK := cur.Prop != "C19"
 		// 4. structured content: drop messages, drop header lines, drop bodies
 		for ci := range cur.Conns {
+			if !contentOK {
+				break
+			}
 			for mi := len(cur.Conns[ci].Msgs) - 1; mi >= 0 && len(cur.Conns[ci].Msgs) > 1; mi-- {
 				c := cur.Clone()
 				off, l := msgExtent(&c.Conns[ci], mi)
@@ -154,13 +162,13 @@ func Minimise(sc *Scenario, mon Monitors, key string, budget int) (*Scenario, in
 		}
 		// 5. flatten structured connections to raw bytes when the violation does not need the truth
 		for ci := range cur.Conns {
-			if cur.Conns[ci].Msgs != nil {
+			if contentOK && cur.Conns[ci].Msgs != nil {
 				try(flatten(cur, ci))
 			}
 		}
 		// 6. ddmin over raw stream bytes (events remapped), junk bytes, forks
 		for ci := range cur.Conns {
-			if cur.Conns[ci].Msgs == nil && len(cur.Conns[ci].Raw) > 0 {
+			if contentOK && cur.Conns[ci].Msgs == nil && len(cur.Conns[ci].Raw) > 0 {
 				ddminRange(len(cur.Conns[ci].Raw), func(off, l int) bool {
 					if off+l > len(cur.Conns[ci].Raw) {
 						return false
@@ -248,7 +256,7 @@ func Minimise(sc *Scenario, mon Monitors, key string, budget int) (*Scenario, in
 		}
 		// 8. simplify bytes: replace by 'a' where the failure survives
 		for ci := range cur.Conns {
-			if cur.Conns[ci].Msgs == nil && len(cur.Conns[ci].Raw) > 0 && len(cur.Conns[ci].Raw) <= 200 {
+			if contentOK && cur.Conns[ci].Msgs == nil && len(cur.Conns[ci].Raw) > 0 && len(cur.Conns[ci].Raw) <= 200 {
 				for p := 0; p < len(cur.Conns[ci].Raw) && steps < budget; p++ {
 					ch := cur.Conns[ci].Raw[p]
 					if ch == 'a' || ch == '\r' || ch == '\n' {
